@@ -320,6 +320,22 @@ def straight_line(fn, bbs):
 def le_written(W, obj):
     """For a fixed-size byte array object initialised with zeros and written exactly once through
     byteorder::WriteBytesExt::write_uN::<E>: returns dict(width=N, size=array len, endian=E, value=term)."""
+    # x.to_le_bytes() / to_be_bytes() / to_ne_bytes(): the std way of producing the same array
+    t0 = obj
+    while is_call(t0) and callee_name(t0[1]) in values.VIEW_NAMES + ("to_vec", "into", "from", "to_owned", "clone") and t0[2]:
+        t0 = t0[2][0]
+    if is_call(t0) and callee_name(t0[1]) in ("to_le_bytes", "to_be_bytes", "to_ne_bytes") and t0[2]:
+        import re as _re
+        m = _re.search(r"impl ([ui])(\d+)>", t0[1]) or _re.search(r"::([ui])(\d+)::", t0[1])
+        arg = t0[2][0]
+        width = int(m.group(2)) // 8 if m else None
+        if width is None:
+            ty = W.ev(t0[3][0]).tty.get(arg) if len(t0) > 3 and t0[3] else None
+            if ty in values.INT_RANGES and ty[1:].isdigit():
+                width = int(ty[1:]) // 8
+        nm = callee_name(t0[1])
+        return {"size": width, "width": width, "endian": {"to_le_bytes": "LittleEndian", "to_be_bytes": "BigEndian", "to_ne_bytes": "NativeEndian"}[nm],
+                "value": arg, "bb": t0[3][1] if len(t0) > 3 and t0[3] else None, "signed": bool(m and m.group(1) == "i")}
     if not (isinstance(obj, tuple) and obj and obj[0] == "obj"):
         return None
     ev = W.ev(obj[1])
@@ -518,6 +534,11 @@ def bytelen(W, ev, t, depth=0):
         p = strip_generics(t[1])
         if name == "from_elem" and len(t[2]) == 2:
             return intval(W, ev, t[2][1])
+        if name in ("to_le_bytes", "to_be_bytes", "to_ne_bytes"):
+            w = le_written(W, t)
+            return w["width"] if w else None
+        if name in values.VIEW_NAMES + ("to_vec", "to_owned", "clone") and t[2]:
+            return bytelen(W, ev, t[2][0], depth + 1)
         if name == "concat" and len(t[2]) == 1 and t[2][0][0] == "agg" and t[2][0][1] == "array":
             ls = [bytelen(W, ev, ev.resolve(x), depth + 1) for x in t[2][0][2]]
             return sum(ls) if None not in ls else None
@@ -790,24 +811,51 @@ def effects_of(prog, roots, classes=None):
     return out, reach, ext
 
 
+OPTION_RESULT_CONV = ("ok_or", "ok_or_else", "ok", "err")
+
+
+def through_conversions(t):
+    """Strip Option<->Result conversions (`ok_or`, `ok_or_else`, `ok`) from a term: returns (inner term, number of conversions).  Each
+    conversion swaps the index of the "present" variant (Some = 1, Ok = 0)."""
+    n = 0
+    t = values.strip_payload(t)
+    while is_call(t) and callee_name(t[1]) in ("ok_or", "ok_or_else", "ok") and t[2] and ("option::Option" in t[1] or "result::Result" in t[1]):
+        t = values.strip_payload(t[2][0])
+        n += 1
+    return t, n
+
+
+def payload_source(t):
+    """The Option/Result value whose payload `t` is (looking through payload selection and Option<->Result conversions)."""
+    return through_conversions(t)[0]
+
+
 def fact_is_present(rels, pred, variant_index=1):
     """Some branch fact establishes that the Option/Result value selected by pred(term) is Some (variant 1) / Ok (variant 0):
-    via is_some()/is_ok(), the negation of is_none()/is_err(), or a match / let-else on the discriminant."""
+    via is_some()/is_ok(), the negation of is_none()/is_err(), a match / let-else on the discriminant, or `value.ok_or(e)?` and the like."""
     for r in rels:
-        if r[0] == "Pred" and r[1] in ("is_some", "is_ok") and pred(values.strip_payload(r[2])):
+        if r[0] == "Pred" and r[1] in ("is_some", "is_ok") and pred(through_conversions(r[2])[0]):
             return True
-        if r[0] in ("Eq", "Ne") and isinstance(r[1], tuple) and r[1][0] == "discr" and pred(values.strip_payload(r[1][1])) and isinstance(r[2], tuple) and r[2][0] == "int":
-            if (r[0] == "Eq" and r[2][1] == variant_index) or (r[0] == "Ne" and r[2][1] == 1 - variant_index):
+        if r[0] in ("Eq", "Ne") and isinstance(r[1], tuple) and r[1][0] == "discr" and isinstance(r[2], tuple) and r[2][0] == "int":
+            inner, n = through_conversions(r[1][1])
+            if not pred(inner):
+                continue
+            vi = variant_index if n % 2 == 0 else 1 - variant_index
+            if (r[0] == "Eq" and r[2][1] == vi) or (r[0] == "Ne" and r[2][1] == 1 - vi):
                 return True
     return False
 
 
 def fact_is_absent(rels, pred, variant_index=1):
     for r in rels:
-        if r[0] == "NotPred" and r[1] in ("is_some", "is_ok") and pred(values.strip_payload(r[2])):
+        if r[0] == "NotPred" and r[1] in ("is_some", "is_ok") and pred(through_conversions(r[2])[0]):
             return True
-        if r[0] in ("Eq", "Ne") and isinstance(r[1], tuple) and r[1][0] == "discr" and pred(values.strip_payload(r[1][1])) and isinstance(r[2], tuple) and r[2][0] == "int":
-            if (r[0] == "Eq" and r[2][1] == 1 - variant_index) or (r[0] == "Ne" and r[2][1] == variant_index):
+        if r[0] in ("Eq", "Ne") and isinstance(r[1], tuple) and r[1][0] == "discr" and isinstance(r[2], tuple) and r[2][0] == "int":
+            inner, n = through_conversions(r[1][1])
+            if not pred(inner):
+                continue
+            vi = variant_index if n % 2 == 0 else 1 - variant_index
+            if (r[0] == "Eq" and r[2][1] == 1 - vi) or (r[0] == "Ne" and r[2][1] == vi):
                 return True
     return False
 
